@@ -1,8 +1,8 @@
 #!/bin/sh
 # Runs every thorough command once (sequentially) and prints one summary line per property.
-# usage: tools/thorough_sweep.sh [jobs] [ids...]
+# usage: tools/thorough_sweep.sh [jobs] [ids...]     (VERIF_SEED selects the seed; run ./setup.sh first in a fresh snapshot)
 JOBS=${1:-8}; shift
-IDS=${*:-"C04 C07 C03 C17 C20 C12 C02 C01 C10 C16 C06 C13 C14 C18 C19 C08 C05 C09 C15 C11"}
+IDS=${*:-"C05 C06 C08 C09 C13 C17 C20 C12 C16 C10 C14 C07 C18 C04 C03 C02 C01 C19 C15 C11"}
 for id in $IDS; do
   start=$(date +%s)
   ./check $id --tier thorough --jobs $JOBS > sweep_$id.log 2>&1
